@@ -55,12 +55,12 @@ Fixpoint vmap3 (f : value -> value -> value -> res value) (xs ys zs : list value
 (* ---------------------------------------------------------------- execEqualBatch *)
 
 (* the kind is decided once, by the dynamic type of rleft[0] *)
-Inductive eqkind := KStr | KInt | KBool.
+Inductive eqkind := KStr | KNum | KBool.
 
 Definition eq_kind (v : value) : option eqkind :=
   match v with
   | VStr _ | VBytes _ => Some KStr
-  | VInt _ => Some KInt
+  | VInt _ | VFlt _ => Some KNum
   | VBool _ => Some KBool
   | _ => None
   end.
@@ -72,9 +72,9 @@ Definition eq_at (kd : eqkind) (neg : bool) (pos : nat) (l r : value) : res valu
             | Some a, Some b => out (String.eqb a b)
             | _, _ => Err (EExec pos)
             end
-  | KInt => match conv_int fo l, conv_int fo r with
-            | Some a, Some b => out (Z.eqb a b)
-            | _, _ => Err (EExec pos)
+  | KNum => match number_compare fo l r CEq with      (* execNumberCompare(rleft[i], rright[i], "=") *)
+            | Ok b => out b
+            | _ => Err (EExec pos)
             end
   | KBool => match l, r with
              | VBool a, VBool b => out (Bool.eqb a b)
